@@ -6,6 +6,7 @@ import BqVerif.Proofs.StartOnceNet
 import BqVerif.Proofs.IntegrityNet
 import BqVerif.Proofs.RetOnceNet
 import BqVerif.Model.RuntimeWitness
+import BqVerif.Proofs.Wake
 /-!
 # C07 — every awaited runtime future resolves exactly once with its own result
 
@@ -222,6 +223,71 @@ theorem C07_L_await_value (w w' : Worker) (t t' : Task) (v : Val)
 example : ((Net.initFlat driftTable false 1 1).exec driftRun).server.boxes.map (fun p => p.2.result.isSome)
     = [true] := by decide +kernel
 
+
+/-- **Wake discipline, worker level (handlers atomic): the assertions of `_get_desired_result`
+    are unreachable.**  Start from a worker with empty tables and apply any sequence of incoming
+    messages and loop iterations that meets the environment assumptions `Worker.okRun`
+    (`Proofs/Wake.lean`): tasks that arrive (SUBMIT / SUBMIT_BATCH) have not run and carry an
+    address the worker does not know; no result - by message or by a local return - is deposited
+    into a mailbox that is already complete.  Then for the task the next loop iteration picks,
+    `_get_desired_result` either succeeds or raises KeyError because the awaited mailbox was dropped
+    (a cancelled future): `assert box.ready`, `assert box.fresh_results is not None` and the
+    ValueError of `owned_mailboxes.remove` cannot fire.  (Both assumptions are global facts -
+    addresses are unique, every slot is answered once; the line-level race below shows what
+    happens when the handlers are not atomic.) -/
+theorem C07_L_assert_unreachable (tbl : Table) (w0 : Worker) (ops : List WOp)
+    (h1 : w0.tasks = []) (h2 : w0.ready = []) (h3 : w0.boxes = []) (h4 : w0.delayed = [])
+    (hok : Worker.okRun tbl w0 ops) (t0 : Task)
+    (hp : (Worker.pick (ops.foldl (Worker.applyOp tbl) w0).pickFuel
+            { (ops.foldl (Worker.applyOp tbl) w0) with blocked := false }).task = some t0)
+    (cls : Nat)
+    (he : desiredResult (Worker.pick (ops.foldl (Worker.applyOp tbl) w0).pickFuel
+            { (ops.foldl (Worker.applyOp tbl) w0) with blocked := false }).w t0 = .error cls) :
+    cls = eKey :=
+  assert_unreachable _ (run_winv tbl w0 ops (winv_init w0 h1 h2 h3 h4) hok) t0 hp cls he
+
+/-- **No lost wake-up, worker level.**  Under the same assumptions, in every reachable state: a
+    task of the table that is not cancelled (neither its address nor an ancestor is in
+    `_cancelled_task_ids`) and waits for a mailbox that still exists is in the ready queue as soon
+    as the mailbox is complete; and while it is not in the ready queue it is the registered waiter
+    (`dest_addr`) of that - incomplete - mailbox, so the next result wakes it. -/
+theorem C07_L_no_lost_wakeup (tbl : Table) (w0 : Worker) (ops : List WOp)
+    (h1 : w0.tasks = []) (h2 : w0.ready = []) (h3 : w0.boxes = []) (h4 : w0.delayed = [])
+    (hok : Worker.okRun tbl w0 ops) (t : Task) (ht : t ∈ (ops.foldl (Worker.applyOp tbl) w0).tasks)
+    (hu : t.uncancelled (ops.foldl (Worker.applyOp tbl) w0)) (m : Nat) (b : Box)
+    (hd : t.desired = some m) (hb : boxGet (ops.foldl (Worker.applyOp tbl) w0).boxes m = some b) :
+    (b.ready = true → t.addr ∈ (ops.foldl (Worker.applyOp tbl) w0).ready)
+    ∧ (t.addr ∉ (ops.foldl (Worker.applyOp tbl) w0).ready → b.ready = false ∧ b.dest = some t.addr) := by
+  have h := run_winv tbl w0 ops (winv_init w0 h1 h2 h3 h4) hok
+  obtain ⟨a1, a2⟩ := no_lost_wakeup _ h t ht hu m b hd hb
+  refine ⟨a1, fun hn => ⟨?_, a2 hn⟩⟩
+  cases hr : b.ready with
+  | false => rfl
+  | true => exact absurd (a1 hr) hn
+
+/-- **`self._tasks[box.dest_addr]` in `_handle_result` cannot raise**: under the same assumptions
+    a RESULT addressed to this worker never kills the incoming thread. -/
+theorem C07_L_result_lookup_ok (tbl : Table) (w0 : Worker) (ops : List WOp)
+    (h1 : w0.tasks = []) (h2 : w0.ready = []) (h3 : w0.boxes = []) (h4 : w0.delayed = [])
+    (hok : Worker.okRun tbl w0 ops) (a : Addr) (v : Val) (by_ : Int)
+    (hr : (ops.foldl (Worker.applyOp tbl) w0).okRecv (.result a v by_))
+    (ha : a.w = (ops.foldl (Worker.applyOp tbl) w0).id) :
+    ((ops.foldl (Worker.applyOp tbl) w0).recv (.result a v by_)).inDead
+      = (ops.foldl (Worker.applyOp tbl) w0).inDead :=
+  result_lookup_ok _ (run_winv tbl w0 ops (winv_init w0 h1 h2 h3 h4) hok) a v by_ hr ha
+
+/-- non-vacuity: a root that submits a child and awaits it, the child is scheduled on the same
+    worker, returns locally and wakes the root, which returns - the run meets the assumptions and
+    ends with empty tables -/
+example :
+    let tbl : Table := [[.sub 1, .await 0, .ret], [.ret]]
+    let root : Task := { addr := ⟨-1, 0, 0⟩, comp := 0, crumbs := [], prog := 0, tag := [0] }
+    let child : Task := { addr := ⟨0, 0, 0⟩, comp := 0, crumbs := [⟨-1, 0, 0⟩], prog := 1, tag := [0, 0, 0] }
+    let ops : List WOp := [.recv (.submit root), .step, .recv (.submit child), .step, .step]
+    Worker.okRun tbl { id := 0 } ops
+    ∧ (ops.foldl (Worker.applyOp tbl) { id := 0 }).tasks = []
+    ∧ (ops.foldl (Worker.applyOp tbl) { id := 0 }).boxes = [] := by
+  refine ⟨okRunB_sound _ _ _ (by decide +kernel), by decide +kernel, by decide +kernel⟩
 
 /-- **Line-level race (finding).** In the source-line model of `_process_await` ∥
     `_handle_result` the schedule in which the incoming thread handles the result of `f0`
